@@ -567,3 +567,44 @@ def dominating_def(fn: ast.AST, site: ast.AST, name: str):
     if r is not None and r[0] == "value":
         return r[1]
     return None
+
+
+def lift_ifexp_calls(f, callee_names):
+    """Copy of Func `f` in which a statement `g(A if T else B)` (g in callee_names, sole argument a conditional
+    expression) reads `if T: g(A)  else: g(B)`."""
+    node = copy.deepcopy(f.node)
+    changed = False
+
+    def rewrite(blk):
+        nonlocal changed
+        for i, s in enumerate(blk):
+            if isinstance(s, ast.Expr) and isinstance(s.value, ast.Call) and ast.unparse(s.value.func) in callee_names \
+                    and len(s.value.args) == 1 and not s.value.keywords and isinstance(s.value.args[0], ast.IfExp):
+                ie = s.value.args[0]
+                a = ast.Expr(ast.Call(s.value.func, [ie.body], []))
+                b = ast.Expr(ast.Call(copy.deepcopy(s.value.func), [ie.orelse], []))
+                new = ast.If(ie.test, [a], [b])
+                for n in ast.walk(new):
+                    if not hasattr(n, "lineno"):
+                        ast.copy_location(n, s)
+                blk[i] = ast.copy_location(new, s)
+                changed = True
+                continue
+            for fld in ("body", "orelse", "finalbody"):
+                b_ = getattr(s, fld, None)
+                if isinstance(b_, list) and b_ and isinstance(b_[0], ast.stmt) and not isinstance(s, (ast.FunctionDef, ast.AsyncFunctionDef, ast.ClassDef)):
+                    rewrite(b_)
+            if isinstance(s, ast.Try):
+                for h in s.handlers:
+                    rewrite(h.body)
+            if isinstance(s, ast.Match):
+                for c in s.cases:
+                    rewrite(c.body)
+
+    rewrite(node.body)
+    if not changed:
+        return f
+    ast.fix_missing_locations(node)
+    g = dataclasses.replace(f)
+    g.node = node
+    return g
